@@ -187,6 +187,21 @@ pub fn run(env: &Env) -> i32 {
         }
         st.violations.extend(vs);
     }
+    let fz = fuzz_inputs();
+    let mut fuzz_stats = json!({"status": "not run in this tier"});
+    if let Some(fz) = &fz {
+        fuzz_stats = fz.stats.clone();
+        // every program the coverage-guided fuzzer kept: its own tape continues into the layout choices
+        enum_stream(env, &mut st, fz.inputs.len() as u64, |i, s| {
+            let data = &fz.inputs[i as usize].1;
+            if data.is_empty() {
+                return vec![];
+            }
+            let cfg = program::GenCfg { undecided: true, plant: 100, focus: data[0] % 4, max_depth: 7, newline_items: false, ..Default::default() };
+            s.count("fuzz_inputs_replayed");
+            case_from_tape(&data[1..], &cfg, s)
+        });
+    }
     let cfg = program::GenCfg { undecided: true, plant: 120, newline_items: false, ..Default::default() };
     tape_stream(env, &mut st, "layouts", env.tier.n(2500, 80_000), 1300, |tape, s| case_from_tape(tape, &cfg, s));
     let cfg2 = program::GenCfg { undecided: true, plant: 90, newline_items: false, focus: 2, max_members: 10, ..Default::default() };
@@ -198,7 +213,7 @@ pub fn run(env: &Env) -> i32 {
             "no comment is placed inside a pragma directive (for this lexer a comment there is part of the pragma value)".into(),
             "each layout is re-lexed and must give the identical token sequence (generator self-check)".into(),
         ],
-        extra: json!({}),
+        extra: json!({"fuzz": fuzz_stats}),
         floors: vec![
             ("layouts with code-like comments".into(), g("layouts_with_code_like_comments"), 500),
             ("layouts where two flagged tokens share a line".into(), g("layouts_where_two_flagged_tokens_share_a_line"), 500),
